@@ -239,11 +239,31 @@ func init() {
 			e.Stats.Assumptions["resp.Reader: input that does not start with a RESP type byte (telnet-style inline commands) is modelled as a protocol error"] = true
 			return tuple{zeroV, 0, fr.i.newError(fr, "Protocol error: not RESP")}
 		}
+		i0, off0 := rr.cur.i, rr.cur.off
 		node, err := e.respParse(rr.cur, 0)
 		if err != nil {
 			return tuple{zeroV, 0, fr.i.newError(fr, "Protocol error: "+err.msg)}
 		}
-		return tuple{respNodeToValue(node), 0, nilErr()}
+		// n = number of bytes consumed
+		var used []piece
+		for k := i0; k < len(rr.cur.p) && k <= rr.cur.i; k++ {
+			x := rr.cur.p[k]
+			if x.k == pLit {
+				lo, hi := 0, len(x.lit)
+				if k == i0 {
+					lo = off0
+				}
+				if k == rr.cur.i {
+					hi = rr.cur.off
+				}
+				if lo < hi {
+					used = append(used, piece{k: pLit, lit: x.lit[lo:hi]})
+				}
+			} else if k < rr.cur.i {
+				used = append(used, x)
+			}
+		}
+		return tuple{respNodeToValue(node), ropeLen(symStr{p: used}), nilErr()}
 	}
 }
 
@@ -373,6 +393,11 @@ func init() {
 		}
 		out.p = normRope(out.p)
 		return writeTo(fr, args[0], out)
+	}
+	intrinsics["(github.com/tidwall/resp.Value).MarshalRESP"] = func(fr *frame, args []value) value {
+		r := respValueRope(args[0])
+		r.bytes = true
+		return tuple{r, nilErr()}
 	}
 	intrinsics["(*github.com/tidwall/resp.Writer).WriteValue"] = func(fr *frame, args []value) value {
 		return writeTo(fr, args[0], respValueRope(args[1]))
